@@ -370,6 +370,19 @@ func c44CheckHistory(tb ev.TB, rec *ev.Rec, base *c44Base, probes []c44Probe) {
 		}
 		return t
 	}
+	// the rule-dependent gates (Rule.Grade for RC4, Rule.Chacha20) only matter for sessions on such a
+	// suite: whenever one was negotiated, also offer it under the rule that disables it
+	tighten := ""
+	if si1.rc4 {
+		tighten = "grade-A"
+	} else if si1.chacha {
+		tighten = "chacha-off"
+	}
+	if tighten != "" {
+		probes = append(append([]c44Probe{}, probes...),
+			c44Probe{Via: "raw", Mut: c44Mut{Kind: "none"}, Chg: []string{tighten}},
+			c44Probe{Via: "std", Mut: c44Mut{Kind: "none"}, Chg: []string{tighten}})
+	}
 	for pi := range probes {
 		p := &probes[pi]
 		if base.Mode == "sessid" {
@@ -694,10 +707,16 @@ func TestC44(t *testing.T) {
 	}
 	getCerts()
 	// deterministic controls and single-change probes for both modes
-	for _, mode := range []string{"ticket", "sessid"} {
+	for _, mode := range []string{"ticket", "sessid", "ticket-rc4", "sessid-rc4", "ticket-chacha", "sessid-chacha"} {
 		base := &c44Base{Mode: mode, CliMin: vTLS10, CliMax: vTLS12, Suites: []uint16{0xc02f, 0xc013, 0x002f}}
+		switch mode {
+		case "ticket-rc4", "sessid-rc4":
+			base.Mode, base.Suites = mode[:6], []uint16{0x0005}
+		case "ticket-chacha", "sessid-chacha":
+			base.Mode, base.Suites = mode[:6], []uint16{0xcca8}
+		}
 		base.Srv.Cert, base.Srv.HasRules = "rsa", true
-		base.Srv.Rules = map[string]c41Rule{"": {Grade: "C"}}
+		base.Srv.Rules = map[string]c41Rule{"": {Grade: "C", Chacha: true}}
 		base.Srv.Key, base.Srv.CacheOn, base.Srv.CacheID, base.Srv.CA = 1, true, 1, "client"
 		var probes []c44Probe
 		probes = append(probes, c44Probe{Via: "raw", Mut: c44Mut{Kind: "none"}}, c44Probe{Via: "std", Mut: c44Mut{Kind: "none"}})
